@@ -4,6 +4,7 @@ use crate::cache::cache::{
 };
 use crate::cache::error::{CacheError, Result};
 use crate::server::timer;
+use dashmap::mapref::entry::Entry;
 use dashmap::mapref::multiple::RefMulti;
 #[cfg(not(memcrs_verif))]
 use dashmap::{DashMap, ReadOnlyView};
@@ -138,8 +139,11 @@ impl Cache for MemoryStore {
     fn set(&self, key: KeyType, mut record: Record) -> Result<SetStatus> {
         //trace!("Set: {:?}", &record.header);
         if record.header.cas > 0 {
-            match self.memory.get_mut(&key) {
-                Some(mut key_value) => {
+            // the entry keeps the shard locked: the comparison and the store -
+            // also the store of a key that is not there yet - are one step
+            match self.memory.entry(key) {
+                Entry::Occupied(mut entry) => {
+                    let key_value = entry.get_mut();
                     if key_value.header.cas != record.header.cas {
                         Err(CacheError::KeyExists)
                     } else {
@@ -152,14 +156,14 @@ impl Cache for MemoryStore {
                         Ok(SetStatus { cas })
                     }
                 }
-                None => {
+                Entry::Vacant(entry) => {
                     // never overflows and never yields 0 (0 means "no CAS")
                     record.header.cas = record.header.cas.wrapping_add(1).max(1);
                     record.header.timestamp = self.timer.timestamp();
                     let cas = record.header.cas;
                     let added = record.len();
-                    let replaced = self.memory.insert(key, record);
-                    self.account(added, replaced.map_or(0, |old| old.len()));
+                    entry.insert(record);
+                    self.account(added, 0);
                     Ok(SetStatus { cas })
                 }
             }
